@@ -185,5 +185,39 @@ func oracleLayerSpec(c *FsCase, before, after *Outcome, out string) []Problem {
 			return probs
 		}
 	}
+
+	// the frame: a path that existed before and that nothing in the layer names — no entry at or above it, no
+	// whiteout target at or above it, no opaque marker for a directory above it — is still there
+	// (PAX global headers name nothing: D26)
+	for _, n := range before.Nodes {
+		q := unhx(n[0])
+		if q == dest || !strings.HasPrefix(q, dest+"/") {
+			continue
+		}
+		rel := strings.TrimPrefix(q, dest+"/")
+		named := false
+		for _, e := range es {
+			switch {
+			case e.reserved:
+			case e.wh:
+				if pathIsOrUnder(rel, e.target) {
+					named = true
+				}
+			case e.opq:
+				if e.target == "." || strings.HasPrefix(rel, e.target+"/") {
+					named = true
+				}
+			default:
+				if pathIsOrUnder(rel, e.name) {
+					named = true
+				}
+			}
+		}
+		if !named && kindAfter[q] == "" {
+			probs = append(probs, Problem{Kind: "oracle", Stream: "extract",
+				Msg: fmt.Sprintf("C06: %q existed before the layer was applied and is gone, although no entry, whiteout or opaque marker of the layer names it or anything above it", rel)})
+			return probs
+		}
+	}
 	return probs
 }
